@@ -540,6 +540,24 @@ func classify(sc *scenario, victim *call, res *result, byID map[string]*call) (k
 	}
 	fake := strings.HasPrefix(victim.GotID, "fake.") || strings.HasPrefix(victim.GotID, "interim.")
 	helper := strings.HasPrefix(victim.API, "Get") || victim.API == "Post"
+	if victim.Mismatch == "body" && victim.GotID != "" {
+		// whose body is it? If that id never travelled on a connection that carried the victim's
+		// request, no connection mix-up can explain it: the buffer itself was shared.
+		onConn := false
+		got := strings.TrimPrefix(strings.TrimPrefix(victim.GotID, "fake."), "redir.")
+		for _, cn := range res.snap.Conns {
+			seq := append(append([]string(nil), cn.IDs...), cn.Drained...)
+			has, hasGot := false, false
+			for _, id := range seq {
+				has = has || id == victim.ID
+				hasGot = hasGot || id == got
+			}
+			onConn = onConn || has && hasGot
+		}
+		if !onConn && got != victim.ID {
+			return "response-body-overwritten", "the body is the one of " + got + ", which never shared a connection with this call: the body buffer was written by somebody else"
+		}
+	}
 	switch {
 	case victim.Mismatch == "body" && !helper && victim.GotID == victim.ID:
 		return "response-body-overwritten", "status line and header are the call's own but the body bytes are not: the body buffer of the Response was written by somebody else"
